@@ -241,7 +241,7 @@ Proof.
   intros Hw HI Hj H.
   destruct (le_lt_dec (length utt) (S j)) as [Hle|Hlt]; [exfalso|exact Hlt].
   unfold boundary_ok in H. cbv zeta in H.
-  destruct (negb (Nat.eqb i 0) && negb (cmem str_eqb (en st) (concat (pyslice utt (zn i - w) (zn i)))));
+  destruct (negb (Nat.eqb i 0) && negb (cmem str_eqb (en st) (concat (pyslice utt (Z.max 0 (zn i - w)) (zn i)))));
     [discriminate|].
   rewrite pyslice_next_nil in H by assumption. cbn [concat] in H.
   unfold Inv in HI. rewrite HI in H.
